@@ -4,7 +4,7 @@ claimed property it touches, undo. A check must stay quiet (exit 0), or, when it
 obligations no longer hold, say so with no-failing-input-found; a VIOLATION with a concrete input is a false alarm.
 usage: tools/harmlesstest.py <dir>..."""
 import json, os, subprocess, sys
-CLAIMED = {"C01","C02","C03","C04","C05","C06","C07","C08","C09","C11","C12","C13","C15","C16","C18","C20"}
+CLAIMED = {"C01","C02","C03","C04","C05","C06","C07","C08","C09","C10","C11","C12","C13","C15","C16","C18","C19","C20"}
 res = []
 for d in sys.argv[1:]:
     meta = json.load(open(os.path.join(d, "meta.json")))
